@@ -146,6 +146,18 @@ def random_cfg(rnd, nv=3, Sigma=('a', 'b'), max_rules=3, max_rhs=3, cnf=False):
     return mk_cfg(rules, S='S', V=V, Sigma=Sigma)
 
 
+def random_cnf_colliding_names(rnd, Sigma=('a', 'b', 'c', 'd')):
+    """CNF grammar over variables whose names concatenate ambiguously (A.BB and AB.B both spell ABB): sentential forms must be compared
+    as sequences of variables, not as joined strings"""
+    V = ['S', 'A', 'B', 'AB', 'BB', 'AA'][:rnd.randint(4, 6)]
+    rules = []
+    for v in V:
+        for _ in range(rnd.randint(1, 3)):
+            rhs = [rnd.choice(Sigma)] if (v != 'S' and rnd.random() < 0.5) else [rnd.choice(V[1:]), rnd.choice(V[1:])]
+            if (v, rhs) not in rules: rules.append((v, rhs))
+    return mk_cfg(rules, S='S', V=V, Sigma=Sigma)
+
+
 def all_cfgs(nv, Sigma, nrules, max_rhs):
     """every grammar with variables S, A.. (nv of them), exactly nrules distinct rules, rhs length <= max_rhs, start S"""
     V = ['S', 'A', 'B'][:nv]; syms = V + sorted(Sigma)
